@@ -11,7 +11,7 @@ import numpy as np
 from harness import common as C
 
 HEADER = """From Coq Require Import List ZArith QArith Bool. Import ListNotations.
-From TLV Require Import Base.Tensor Base.Ops Model.Transforms Corr.C04.
+From TLV Require Import Base.Tensor Base.Ops Model.Transforms Model.TransformsApi Model.TransformsHeap Corr.C04.
 Open Scope nat_scope."""
 
 
@@ -474,7 +474,8 @@ def pred_cp_flip_sign_form(inp):
     return None
 
 
-CLASSIFIERS = {}      # no known finding is open for C04 (the three operand-form crashes were repaired in /repo 98aff0c, 85a028b)
+from harness.props import C04_r5 as R5
+CLASSIFIERS = dict(R5.CLASSIFIERS)      # open known finding: cp_mode_dot_inplace_alias (known_findings.d/C04.json)
 
 
 def dense_ttm(cores):
@@ -527,6 +528,7 @@ ENTRY = {"cp_mode_dot_form": "tensorly.cp_tensor.cp_mode_dot", "cp_flip_sign_for
          "svd_compress_tensor_slices": "tensorly.preprocessing.svd_compress_tensor_slices",
          "svd_decompress_parafac2_tensor": "tensorly.preprocessing.svd_decompress_parafac2_tensor",
          "svd_compress_decompress": "tensorly.preprocessing.svd_decompress_parafac2_tensor"}
+PRED.update(R5.PRED); ENTRY.update(R5.ENTRY)
 
 
 # ----------------------------------------------------------------------------- generators
@@ -695,6 +697,15 @@ def _sx_expr(e, env, opts):
              ast.Gt: "Nat.ltb {b} {a}", ast.GtE: "Nat.leb {b} {a}"}.get(type(e.ops[0]))
         if f:
             return "(" + f.format(a=a, b=b) + ")"
+    if isinstance(e, ast.IfExp):
+        nt = none_test(e.test)
+        if nt and nt[0] in opts:
+            name, pos = nt
+            some_env = dict(env); some_env[name] = f"{name}_v"
+            a = _sx_expr(e.body if pos else e.orelse, some_env, opts)
+            b = _sx_expr(e.orelse if pos else e.body, env, opts)
+            return f"(match {name} with Some {name}_v => {a} | None => {b} end)"
+        return f"(if {_sx_expr(e.test, env, opts)} then {_sx_expr(e.body, env, opts)} else {_sx_expr(e.orelse, env, opts)})"
     if isinstance(e, ast.Call) and isinstance(e.func, ast.Name) and e.func.id in ("min", "max") and len(e.args) == 2:
         return f"(Nat.{e.func.id} {_sx_expr(e.args[0], env, opts)} {_sx_expr(e.args[1], env, opts)})"
     raise Untranslatable(ast.dump(e)[:80])
@@ -787,10 +798,14 @@ def gen_pad(tt_module):
 def gen_rank_limit(pre_module):
     """rank_limit of svd_compress_tensor_slices: the if / else on max_rank"""
     fn = find_function(pre_module, "svd_compress_tensor_slices")
-    ifs = [n for n in fn.body if isinstance(n, ast.If) and none_test(n.test) and none_test(n.test)[0] == "max_rank"]
-    if len(ifs) != 1:
-        raise Untranslatable("rank_limit decision")
-    env = _sx_run(ifs, {"n_cols": "n_cols", "max_rank": "max_rank"}, {"max_rank"})
+    def assigns_rank_limit(n):
+        return any(isinstance(t, ast.Name) and t.id == "rank_limit" for a in ast.walk(n) if isinstance(a, ast.Assign) for t in a.targets)
+    stmts = [n for n in fn.body if isinstance(n, (ast.If, ast.Assign)) and assigns_rank_limit(n)]
+    if not stmts:
+        raise Untranslatable("no assignment to rank_limit at the top level of svd_compress_tensor_slices")
+    env = _sx_run(stmts, {"n_cols": "n_cols", "max_rank": "max_rank"}, {"max_rank"})
+    if "rank_limit" not in env:
+        raise Untranslatable("rank_limit is not assigned on every path")
     return f"Definition rank_limit_src (n_cols : nat) (max_rank : option nat) : nat := {env['rank_limit']}.\n"
 
 
@@ -807,10 +822,20 @@ Proof.
 Qed.
 '''
 LEMMA_RANK = '''
+Lemma rank_limit_src_eq : forall (nc : nat) (mr : option nat),
+  rank_limit_src nc mr = match mr with Some m => Nat.min nc m | None => nc end.
+Proof.
+  intros nc mr. unfold rank_limit_src. destruct mr as [m|];
+    repeat match goal with
+           | |- context [Nat.eqb ?a ?b] => destruct (Nat.eqb_spec a b)
+           | |- context [Nat.ltb ?a ?b] => destruct (Nat.ltb_spec a b)
+           | |- context [Nat.leb ?a ?b] => destruct (Nat.leb_spec a b)
+           end; cbn; lia.
+Qed.
 Lemma rank_limit_src_ok : forall (slices : list (list (list Z))) thr mr tapes,
   svd_compress Zops slices thr mr tapes =
   map (fun p => compress_slice Zops (rank_limit_src (ncols (hd [] slices)) mr) thr (fst p) (snd p)) (combine slices tapes).
-Proof. intros. unfold svd_compress, rank_limit_src. destruct mr; reflexivity. Qed.
+Proof. intros. unfold svd_compress. rewrite rank_limit_src_eq. reflexivity. Qed.
 '''
 SRC_HEADER = '''From Coq Require Import List Arith ZArith Bool Lia. Import ListNotations.
 From TLV Require Import Base.Tensor Base.Ops Model.Transforms Proofs.TransformsProofsTT.
@@ -820,19 +845,21 @@ Open Scope nat_scope.
 
 
 def generate_source_lemmas(tt_module, pre_module):
-    """(verdict file, informational file): the padding amounts are part of the advertised form (enlarged ranks), so their lemma
-    decides; the rank limit only selects which slices get compressed (the represented slices do not depend on it), so a change
-    there is reported in the evidence but is not a verdict"""
-    pad = SRC_HEADER + gen_pad(tt_module) + LEMMA_PAD
-    try:
-        rank = SRC_HEADER + gen_rank_limit(pre_module) + LEMMA_RANK
-    except Untranslatable:
-        rank = None
-    return pad, rank
+    """(PadSrc.v, RankSrc.v) or, for a source the translator does not cover, the Untranslatable exception in that slot.
+    Both lemmas decide: the padding amounts are the advertised enlarged ranks, the rank limit is the documented meaning of
+    max_rank ("the maximum rank to allow in the datasets after compression") and selects what gets compressed."""
+    out = []
+    for gen, mod, lemma in ((gen_pad, tt_module, LEMMA_PAD), (gen_rank_limit, pre_module, LEMMA_RANK)):
+        try:
+            out.append(SRC_HEADER + gen(mod) + lemma)
+        except Untranslatable as e:
+            out.append(e)
+    return tuple(out)
 
 
 def source_tie(chk):
-    """regenerate the source-derived definitions from the current tensorly tree and re-check the lemmas tying them to the model"""
+    """regenerate the source-derived definitions from the current tensorly tree and re-check the lemmas tying them to the model;
+    fail closed: a lemma that fails, or a source the translator cannot read, is a broken tie (verdict), never ignored"""
     import os, shutil, subprocess, importlib
     d = os.path.join(C.BUILD, "gen", f"C04_{os.getpid()}"); os.makedirs(d, exist_ok=True)
 
@@ -847,25 +874,25 @@ def source_tie(chk):
         return "skipped", f"coqc rc {r.returncode} (killed / timeout)"
     try:
         tt = importlib.import_module("tensorly.tt_tensor"); pre = importlib.import_module("tensorly.preprocessing")
-        try:
-            pad, rank = generate_source_lemmas(tt, pre)
-        except Untranslatable as e:
-            chk.notes.append(f"source tie skipped: the translator does not cover the current source of pad_tt_rank ({e})")
-            chk.cov["source_derived_lemmas"] = {"pad_src_ok": "skipped (untranslatable source)"}
-            return
-        chk.checker_cmds.append("coqc on generated build/gen/C04_*/PadSrc.v: pad_src_ok (tensorly source -> Gallina)")
-        st, detail = coqc("PadSrc.v", pad)
-        res = {"pad_src_ok": st}
-        if st == "failed":
-            chk.broken.append({"what": "source-derived lemma pad_src_ok failed: the padding amounts of pad_tt_rank in the tensorly source no longer equal lpad / rpad of the model",
-                               "detail": detail + "\n--- generated ---\n" + "\n".join(pad.splitlines()[4:6])})
-        elif st == "skipped":
-            chk.notes.append("source tie skipped: " + detail)
-        if rank is not None:
-            st2, detail2 = coqc("RankSrc.v", rank)
-            res["rank_limit_src_ok (informational)"] = st2
-            if st2 == "failed":
-                chk.notes.append("rank limit of svd_compress_tensor_slices in the source differs from the model's (which slices get compressed changed; not a verdict): " + detail2[-300:])
+        res = {}
+        what = {"pad_src_ok": ("PadSrc.v", "pad_tt_rank", "the padding amounts of pad_tt_rank in the tensorly source no longer equal lpad / rpad of the model"),
+                "rank_limit_src_ok": ("RankSrc.v", "svd_compress_tensor_slices", "the rank limit of svd_compress_tensor_slices in the tensorly source is no longer min(n_cols, max_rank) / n_cols as in the model")}
+        for (lemma, (fname, fn_name, msg)), text in zip(what.items(), generate_source_lemmas(tt, pre)):
+            if isinstance(text, Untranslatable):
+                res[lemma] = "broken (untranslatable source)"
+                chk.broken.append({"what": f"source tie {lemma} broken: the ast -> Gallina translator does not cover the current source of {fn_name}",
+                                   "detail": str(text)})
+                continue
+            chk.checker_cmds.append(f"coqc on generated build/gen/C04_*/{fname}: {lemma} (tensorly source -> Gallina)")
+            st, detail = coqc(fname, text)
+            if st == "skipped":                      # loaded machine: one more attempt before giving up (never a verdict)
+                st, detail = coqc(fname, text)
+            res[lemma] = st
+            if st == "failed":
+                chk.broken.append({"what": f"source-derived lemma {lemma} failed: {msg}",
+                                   "detail": detail + "\n--- generated ---\n" + "\n".join(l for l in text.splitlines() if l.startswith("Definition"))})
+            elif st == "skipped":
+                chk.notes.append(f"source tie {lemma} skipped: " + detail)
         chk.cov["source_derived_lemmas"] = res
     finally:
         shutil.rmtree(d, ignore_errors=True)
@@ -1126,6 +1153,8 @@ def run(chk):
 
     # --- (4) predicates on the other formats
     run_other_formats(chk, rng, judge, mult, emit)
+    # --- (5) round 5: validating constructors, heap model of the copy flag, documented meaning of max_rank
+    R5.run_round5(chk, rng, judge, mult, emit)
 
     failing, n_eval, broken = run_shards(chk, cases)
     chk.checker_cmds.append("coqc (vm_compute) on generated build/cases/C04/*.v: Corr.C04.failing")
@@ -1155,7 +1184,29 @@ def run(chk):
                    "the assignment of cp_permute_factors (scipy linear_sum_assignment) is taken from the implementation; its optimality for the congruence matrix, recomputed by the model from the factors and "
                    "the norm tape (entries rounded to 2^-40, tolerance 2e-9), is checked by exhaustive search inside Coq (checker proved sound) and again in Python",
                    "orthonormality of the QR / SVD answers and of the returned projections / loadings is checked inside Coq on every case (exactly on Z for svd_decompress with signed partial permutations) and again in Python"]
-    return chk.finish(CLASSIFIERS)
+    chk.trusted.append("aliasing observations of the heap cases (np.shares_memory between the caller's arrays and the result's, identity of the caller's list entries) are taken by the harness")
+    return finish_with_local_known(chk)
+
+
+def finish_with_local_known(chk):
+    """chk.finish with the entries of known_findings.d/C04.json added to those of the merged known_findings.json (which the
+    coordinator regenerates from the .d files; until then a new entry would be invisible to common.load_known)"""
+    import json, os
+    orig = C.load_known
+
+    def load(prop):
+        known = orig(prop)
+        try:
+            extra = json.load(open(os.path.join(C.VERIF, "known_findings.d", "C04.json"))).get("findings", [])
+        except Exception:  # noqa
+            extra = []
+        ids = {k.get("id") for k in known}
+        return known + [dict(e, property="C04") for e in extra if e.get("id") not in ids]
+    C.load_known = load
+    try:
+        return chk.finish(CLASSIFIERS)
+    finally:
+        C.load_known = orig
 
 
 def gen_tucker(rng, float_=False):
